@@ -82,6 +82,9 @@ func chk(k *fw.K, entry, argClass string, args string, exp expect, f func() (ten
 		k.Add("error_messages", "%s", reDigits.ReplaceAllString(err.Error(), "#"))
 	}
 	k.Key("%s/%s/%s", entry, argClass, outcome)
+	if calls, ok := k.Case.([]c09call); (ok || k.Case == nil) && len(calls) < 6 && !k.Failed() {
+		k.Case = append(calls, c09call{Entry: entry, Args: args, Want: wantTxt + " -> observed " + outcome})
+	}
 	if exp.any {
 		return
 	}
